@@ -209,22 +209,60 @@ def extract_pulse_tables(fns):
     out['init_slots'] = [(a, v) for _, a, v in slots]
     cl = fns['PulseSequence.cleanup']
     sets = {}
-    pops = []
     for node in ast.walk(cl):
         if isinstance(node, ast.Assign) and len(node.targets) == 1 and isinstance(node.targets[0], ast.Name):
             nm = node.targets[0].id
             if nm.endswith('_attrs') and isinstance(node.value, ast.Set):
                 sets[nm] = set_literal_strings(node.value)
-        if isinstance(node, ast.Call) and isinstance(node.func, ast.Attribute) and node.func.attr == 'pop' \
-                and ast.unparse(node.func.value) == 'self._intermediates':
-            if not (isinstance(node.args[0], ast.Constant)):
-                raise ExtractError('non-literal key popped from _intermediates')
-            pops.append(node.args[0].value)
+
+    def pops_in(stmts):
+        """keys popped from self._intermediates in a statement list: literal keys, or the literal
+        tuple a `for key in (...)` loop iterates over"""
+        found = []
+
+        def visit(node, loopvars):
+            if isinstance(node, ast.For) and isinstance(node.target, ast.Name) and isinstance(node.iter, (ast.Tuple, ast.List)):
+                loopvars = dict(loopvars)
+                loopvars[node.target.id] = set_literal_strings(node.iter)
+            if isinstance(node, ast.Call) and isinstance(node.func, ast.Attribute) and node.func.attr == 'pop' \
+                    and ast.unparse(node.func.value) == 'self._intermediates':
+                k = node.args[0]
+                if isinstance(k, ast.Constant) and isinstance(k.value, str):
+                    found.append(k.value)
+                elif isinstance(k, ast.Name) and k.id in loopvars:
+                    found.extend(loopvars[k.id])
+                else:
+                    raise ExtractError('non-literal key popped from _intermediates')
+            for ch in ast.iter_child_nodes(node):
+                visit(ch, loopvars)
+        for st in stmts:
+            visit(st, {})
+        return sorted(found)
+
+    pops_by_branch = []
+
+    def branches_of(node):
+        if isinstance(node, ast.If) and isinstance(node.test, ast.Compare) and ast.unparse(node.test.left) == 'method':
+            pops_by_branch.append((ast.unparse(node.test), pops_in(node.body)))
+            if len(node.orelse) == 1 and isinstance(node.orelse[0], ast.If):
+                branches_of(node.orelse[0])
+            elif node.orelse:
+                pops_by_branch.append(('else', pops_in(node.orelse)))
+    top_ifs = [n for n in cl.body if isinstance(n, ast.If) and isinstance(n.test, ast.Compare)
+               and ast.unparse(n.test.left) == 'method']
+    if len(top_ifs) != 1:
+        raise ExtractError('cleanup: expected exactly one if/elif chain on `method`')
+    branches_of(top_ifs[0])
+    all_pops = pops_in(cl.body)
+    if sorted(all_pops) != sorted(k for _, ks in pops_by_branch for k in ks):
+        raise ExtractError('cleanup: a key is popped from _intermediates outside the if/elif chain on `method`')
+    pops = [k for t, ks in pops_by_branch if 'frequency dependent' in t for k in ks]
     for k in ('default_attrs', 'concatenation_attrs', 'filter_function_attrs'):
         if k not in sets:
             raise ExtractError('cleanup: attribute set %s not found' % k)
     out['cleanup_sets'] = sets
     out['cleanup_pops'] = sorted(pops)
+    out['cleanup_pops_by_branch'] = pops_by_branch
     # the method -> attrs expressions
     branches = []
     for node in ast.walk(cl):
@@ -436,6 +474,8 @@ def generate():
     for k, v in sorted(tabs['cleanup_sets'].items()):
         src_lines.append('Definition cleanup_%s : list string := [%s].' % (k, '; '.join(coq_string(s) for s in v)))
     src_lines.append('Definition cleanup_pops : list string := [%s].' % '; '.join(coq_string(s) for s in tabs['cleanup_pops']))
+    src_lines.append('Definition cleanup_pops_by_branch : list (string * list string) := [%s].' % '; '.join(
+        '(%s, [%s])' % (coq_string(t), '; '.join(coq_string(x) for x in r)) for t, r in tabs['cleanup_pops_by_branch']))
     src_lines.append('Definition cleanup_branches : list (string * list string) := [%s].' % '; '.join(
         '(%s, [%s])' % (coq_string(t), '; '.join(coq_string(x) for x in r)) for t, r in tabs['cleanup_branches']))
     src_lines.append('Definition is_cached_aliases : list (string * string) := [%s].' % '; '.join(
